@@ -158,7 +158,7 @@ def run(tier):
         if t[0] == "tuple":
             return all(no_unit(x) for x in t[1])
         return all(no_unit(x) for x in t[1:])
-    cands = [t for t in uniq if serde_oracle.compilable(t) and no_unit(t) and not rg.has_ref(t)]
+    cands = [t for t in uniq if serde_oracle.compilable(t) and no_unit(t) and not rg.has_ref(t) and rg.named_in(t) <= {"Named"}]
     rnd.shuffle(cands)
     sample = cands[: (150 if tier == "quick" else 800)]
     body = [serde_oracle.SAMPLE_PRELUDE, "fn main() {\n"] + ["    show::<%s>(%d);\n" % (rg.rust(t), i) for i, t in enumerate(sample)] + ["}\n"]
